@@ -18,6 +18,7 @@ import edef
 import eptr
 import ereduce
 import ecanon
+import ecount
 
 
 def run(ctx, F, dm=True):
@@ -53,5 +54,6 @@ def run(ctx, F, dm=True):
     ecanon.check_id_split(ctx, F)
     n = eptr.run(ctx, F)
     ctx.floor("E-PTR.tagbits", "interpreted mask / accessor situations", n, 11)
+    ecount.run(ctx, F, ("oxidd_rules_bdd", "oxidd_rules_zbdd", "oxidd_rules_mtbdd", "oxidd_rules_tdd", "oxidd_core", "oxidd_cache"))
     n = ecanon.check_ptr_split(ctx, F)
     ctx.floor("E-CANON.ptrsplit", "is_inner() branches of the pointer-based manager", n, 6)
